@@ -240,6 +240,10 @@ RULES = {
   {'id': 'tag_overrides', 'file': 'src/rculfhash.c', 'kind': 'after', 'pattern': r'^\treturn clear_flag\(node\) == \(struct cds_lfht_node \*\) END_VALUE;\s*$',
    'text': '}\n#include <verif_flag_overrides.h>\nstatic inline void verif_tag_overrides_anchor(void) {', 'count': 1},
  ],
+ 'lfht_mut': [
+  L('add_inner_loop', 'src/rculfhash.c', '_cds_lfht_add', 'for', 2, 'lfht_add', count=2),
+  L('gc_inner_loop', 'src/rculfhash.c', '_cds_lfht_gc_bucket', 'for', 2, 'lfht_gc', count=2),
+ ],
  'lfht_trav': [
   L('lookup_loop', 'src/rculfhash.c', 'cds_lfht_lookup', 'for', 1, 'lfht_lookup', count=1),
   L('next_dup_loop', 'src/rculfhash.c', 'cds_lfht_next_duplicate', 'for', 1, 'lfht_next_dup', count=1),
